@@ -146,6 +146,20 @@ def plans(draw):
             hist.append(draw(st.sampled_from(others)))      # another query while the fault persists
         hist.append(["arm", tag, None])
         hist.append(top)
+    # after the failures: the formula of one cells (an uncached one if there is any) is replaced; nothing computed
+    # through it may survive, whatever failed before
+    if draw(st.booleans()):
+        defs = [op for op in ops if op[0] == "new_cells"]
+        unc = [op for op in defs if not op[2].get("cached", True)]
+        op0 = draw(st.sampled_from(unc if unc and draw(st.integers(0, 3)) else defs))
+        new = dict(op0[2], expr=["bin", "+", op0[2]["expr"], ["lit", 1000]])
+        new.pop("terms", None)
+        if new.get("form") == "deflines":
+            new["form"] = "def"
+        hist.append(["set_cells_formula", op0[1], new["name"], new])
+        hist.append(top)
+        for q in others[:3]:
+            hist.append(q)
     # None-result fault points
     for k in range(len(info["cells"])):
         if draw(st.integers(0, 3)) == 0:
@@ -282,6 +296,30 @@ def run_case(case):
                 if sim.held != set(after):
                     out.discard = True
                     return out
+            continue
+        if k == "set_cells_formula":
+            # everything computed from (or through) the cells must be gone, whatever failed before
+            res = real.apply(op)
+            if res[0] != "ok":
+                return out.fail("edit-raised", "%r -> %r" % (op, res), i)
+            apply_ref(rm, op)
+            name = op[2]
+            own = {e for e in sim.held if e[1] == name and e not in sim.inputs}
+            through = {e for e, us in sim.upred.items() if any(u[1] == name for u in us) and e in sim.held}
+            must_go = set(own) | set(through)
+            for e in list(own | through):
+                must_go |= sim.dependents(e)
+            must_go -= set(sim.inputs)
+            after = live_held(real)
+            stale = sorted((e for e in must_go if e in after), key=repr)
+            if stale:
+                return out.fail("stale-after-formula-change", "after %r (following the failures above) these elements "
+                                "computed from %s still hold values: %r" % (op[:3], name, stale[:6]), i)
+            sim.discard_many(list(sim.held - set(after)))
+            if sim.held != set(after):
+                out.discard = True
+                return out
+            out.count("formula_changes")
             continue
         if k == "clear_all_model":
             real.apply(op)
